@@ -44,14 +44,14 @@ func mkError(t string, code int64, msg string) *bval {
 }
 
 type dgram struct {
-	raw  []byte
-	v    *bval
-	to   *net.UDPAddr
-	t    []byte
-	y    string
-	q    string
-	ok   bool
-	at   written
+	raw []byte
+	v   *bval
+	to  *net.UDPAddr
+	t   []byte
+	y   string
+	q   string
+	ok  bool
+	at  written
 }
 
 func parseDgram(w written) dgram {
